@@ -31,11 +31,38 @@ Missing for the full statements: the reference-count equation `refcount = [not r
 of iterators parked on the node` as an invariant of every operation (from which: a node is freed
 only when no iterator is parked on it), and the history-level bookkeeping of `IterMon`.
 -/
-import QbVerif.Lemmas.HtForeachLoop
+import QbVerif.Lemmas.HtStepAll
 
 namespace QbVerif.Hashtable
 open QbVerif.Map QbVerif.Gen
 set_option linter.unusedSimpArgs false
+
+/-- the invariant `Inv` (structure + `refcount = [not removed] + number of iterators parked on the
+    node` + every iterator's node linked in the bucket it records) holds after EVERY history -/
+theorem ht_inv_all_histories (size : Nat) (ops : List Op) : Inv (run size ops).1 :=
+  (runFrom_inv ops (create_inv size)).1
+
+/-- C18, memory safety: for all interleavings of iterator create/next/free with put/rm/get (and
+    every other operation of the harness language: count, foreach complete or abandoned, notifier
+    add/del, destroy), any number of iterators, no step dereferences a freed node (and no
+    traversal loop runs out of fuel) -/
+theorem ht_iter_memory_safe (size : Nat) (ops : List Op) :
+    ∀ o ∈ (run size ops).2, o.res ≠ .uaf ∧ o.res ≠ .diverge :=
+  (runFrom_inv ops (create_inv size)).2
+
+/-- a node is freed only when nothing refers to it: in every reachable state every linked node is
+    referenced, and every open iterator's node is linked -/
+theorem ht_iter_nodes_linked (size : Nat) (ops : List Op) :
+    let t := (run size ops).1
+    (∀ n ∈ t.flat, 0 < n.refcount) ∧
+    ∀ p ∈ t.iters, ∀ id, p.2.node = some id → (t.findNode id).isSome = true := by
+  intro t
+  have h := ht_inv_all_histories size ops
+  refine ⟨h.rcPos, ?_⟩
+  intro p hp id hid
+  obtain ⟨n, hn, hnid⟩ := h.itNode p hp id hid
+  rw [← hnid, findNode_eq h.idsNodup (mem_flat_of_bucket hn)]
+  rfl
 
 theorem ht_iter_start_partial (t : HT) : remOf t ⟨none, 0⟩ = t.flat := remOf_start t
 
